@@ -51,6 +51,17 @@ Definition param_consts (p : project) : list (str * list str) :=
 Definition zod_consts (o : orders) (p : project) : option (list (str * list str)) :=
   option_map (fun out => map (fun n => (schema_name n, struct_ids p n)) out ++ param_consts p) (emitted_zod o p).
 
+(* the same with configured type mappings (the renderer model takes them; the order does not) *)
+Definition string_ids_m (m : list (str * str)) (s : str) : list str :=
+  match parse_type_structure s with Some t => ex_ids [] (TT.Model.C10Zod.zex_of m (conv t) false) | None => [] end.
+Definition struct_ids_m (m : list (str * str)) (p : project) (n : str) : list str :=
+  L "z" :: match field_strings p n with Some l => flat_map (string_ids_m m) l | None => [] end.
+Definition param_consts_m (m : list (str * str)) (p : project) : list (str * list str) :=
+  map (fun c => (params_const c, L "z" :: flat_map (fun t => string_ids_m m (tstr t)) (cmd_params c)))
+      (filter (fun c => match cmd_params c with [] => false | _ => true end) (commands p)).
+Definition zod_consts_m (m : list (str * str)) (o : orders) (p : project) : option (list (str * list str)) :=
+  option_map (fun out => map (fun n => (schema_name n, struct_ids_m m p n)) out ++ param_consts_m m p) (emitted_zod o p).
+
 (* no name that the module could confuse with a parameter schema: neither a defined type nor a custom name
    mentioned by a field or a parameter ends in Params *)
 Definition no_params_suffix (p : project) : bool :=
